@@ -3,6 +3,7 @@
     Model: GridEdit.v (t2grid edit state machine).  Invariant: Inv.v. *)
 From Coq Require Import Ascii String List Bool PArith NArith FMapPositive Permutation.
 From PTBase Require Import Exn PyStr.
+From Gen Require Import GenFlags.
 From P Require Import Assoc GridEdit GridLemmas Inv InvRock InvBlock InvConn InvRename InvReorder InvMinc InvAdd InvEmbed InvDec InvAfter Reach Witness.
 Import ListNotations.
 Open Scope list_scope.
@@ -54,15 +55,17 @@ Proof. exact (fun g I => conj (fun k => delete_connection_total g k I) (fun n =>
 Print Assumptions delete_connection_and_block_never_raise.
 
 (** the three preconditions cannot be dropped: the faithful model carries the listed findings *)
-Theorem add_block_replacing_connected_block_breaks_inv :
+(** (each about the variant of the method the code under test has: GenFlags is generated from t2grids.py on every run;
+    in the variant that refuses such a call the precondition is not needed, see the *_refusing_* theorems) *)
+Theorem add_block_replacing_connected_block_breaks_inv : add_block_refuses = false ->
   exists g n rk g', Inv g /\ add_block g n rk = Ok g' /\ ~ Inv g'.
 Proof. exact add_block_replace_refuted. Qed.
 Print Assumptions add_block_replacing_connected_block_breaks_inv.
-Theorem delete_rocktype_in_use_breaks_inv :
+Theorem delete_rocktype_in_use_breaks_inv : delete_rocktype_refuses = false ->
   exists g n g', Inv g /\ delete_rocktype g n = Ok g' /\ ~ Inv g'.
 Proof. exact delete_rocktype_in_use_refuted. Qed.
 Print Assumptions delete_rocktype_in_use_breaks_inv.
-Theorem rename_rocktype_with_stale_object_breaks_inv :
+Theorem rename_rocktype_with_stale_object_breaks_inv : add_rocktype_relinks = false ->
   exists g a b g', Inv g /\ rename_rocktype g a b = Ok g' /\ ~ Inv g'.
 Proof. exact rename_rocktype_stale_refuted. Qed.
 Print Assumptions rename_rocktype_with_stale_object_breaks_inv.
@@ -76,10 +79,25 @@ Proof. exact swap_is_injective. Qed.
 Print Assumptions example_swap_is_one_to_one.
 
 (** ... and through __add__: the other grid has a block named like a connected block of this one *)
-Theorem grid_add_overlapping_connected_name_breaks_inv :
+Theorem grid_add_overlapping_connected_name_breaks_inv : add_block_refuses = false ->
   exists g h r, Inv g /\ Inv (with_view g h) /\ grid_add g (view_of g) h = Ok r /\ ~ Inv r.
 Proof. exact grid_add_overlap_refuted. Qed.
 Print Assumptions grid_add_overlapping_connected_name_breaks_inv.
+
+(** the repaired variants (proposed_fixes/C08-delete-rocktype-in-use, C08-add-block-replaces-connected): the method refuses
+    the call that would break the grid, and no precondition is left *)
+Theorem delete_rocktype_refusing_preserves : delete_rocktype_refuses = true ->
+  forall g n g', Inv g -> delete_rocktype g n = Ok g' -> Inv g'.
+Proof. exact (fun F g n g' => delete_rocktype_refusing_inv g n g' F). Qed.
+Print Assumptions delete_rocktype_refusing_preserves.
+Theorem add_block_refusing_preserves : add_block_refuses = true ->
+  forall g n rk g', Inv g -> add_block g n rk = Ok g' -> Inv g'.
+Proof. exact (fun F g n rk g' => add_block_refusing_inv g n rk g' F). Qed.
+Print Assumptions add_block_refusing_preserves.
+(** the variant of this run *)
+Theorem method_variants_of_this_run : exists a b c, delete_rocktype_refuses = a /\ add_block_refuses = b /\ add_rocktype_relinks = c.
+Proof. exact (ex_intro _ _ (ex_intro _ _ (ex_intro _ _ (conj eq_refl (conj eq_refl eq_refl))))). Qed.
+Print Assumptions method_variants_of_this_run.
 
 (** the boolean test of the invariant (used for the concrete grids below, and printed by the extracted driver next to
     every full dump, where it is compared with the verdict of the Python statement of the invariant) decides it *)
